@@ -817,7 +817,12 @@ class Pool(BasePool[C]):
                 # actively rebalance the pool just yet - rebalance will kick in
                 # when the max capacity is hit; or we'll depend on the garbage
                 # collection to shrink the over-quota blocks.
-                pass
+                #
+                # A request that queued up while the pool was full, or whose
+                # block then lost its only connection to a transfer, still
+                # has no connection coming, and nothing else would open one
+                # for it - the spare capacity is theirs.
+                self._capacity_freed()
 
             return
 
